@@ -124,9 +124,56 @@ static void run(int n, int G) {
         ctx.done_case();
     } while (mcx::multiset_next(idx, alpha.size()) && !ctx.stopped());
 }
+
+// "zero-area-thin rectangles": the thinnest rectangles the constructor accepts (one unit in the last place high or wide) and
+// 1e-9-thin ones, mixed with ordinary grid rectangles.  Rounding in the passes can collapse such a rectangle to extent 0 or -1ulp.
+struct RD { double x0, x1, y0, y1; const char *kind; };
+static void run_thin(int n, int G) {
+    vector<RD> alpha;
+    for (int x0 = 0; x0 < G; x0++) for (int x1 = x0 + 1; x1 <= G; x1++) for (int y0 = 0; y0 < G; y0++) for (int y1 = y0 + 1; y1 <= G; y1++) alpha.push_back({(double)x0 * S, (double)x1 * S, (double)y0 * S, (double)y1 * S, "grid"});
+    size_t nGrid = alpha.size();
+    for (int a0 = 0; a0 < G; a0++) for (int a1 = a0 + 1; a1 <= G; a1++) for (int b = 0; b <= G; b++) for (int thin = 0; thin < 2; thin++) {
+        double lo = b == 0 ? 1.0 : (double)b * S, hi = thin ? lo + 1e-9 : nextafter(lo, 1e9);   // (a rectangle at exactly 0 has a denormal extent: use 1.0 for the lowest line)
+        alpha.push_back({(double)a0 * S, (double)a1 * S, lo, hi, thin ? "1e-9 high" : "1ulp high"}); alpha.push_back({lo, hi, (double)a0 * S, (double)a1 * S, thin ? "1e-9 wide" : "1ulp wide"}); }
+    ctx.phase(mcx::fmt("n=%d rectangles, at least one of them 1ulp- or 1e-9-thin (alphabet: %zu grid-%d rectangles + %zu thin ones), all multisets x fixed subsets x thirdPass", n, nGrid, G, alpha.size() - nGrid));
+    vector<int> idx(n, 0);
+    do {
+        bool anyThin = false; for (int i : idx) if ((size_t)i >= nGrid) anyThin = true; if (!anyThin) continue;
+        if (!ctx.next()) continue;
+        vector<RD> in; for (int i : idx) in.push_back(alpha[i]);
+        string base = "rects:"; for (auto &r : in) base += mcx::fmt(" [%.17g,%.17g]x[%.17g,%.17g](%s)", r.x0, r.x1, r.y0, r.y1, r.kind);
+        ctx.count("states"); ctx.count("nontrivial"); ctx.sample(base, 1);
+        for (unsigned fm = 0; fm < (1u << n); fm++) {
+            set<unsigned> fixed; for (int i = 0; i < n; i++) if (fm >> i & 1) fixed.insert(i);
+            bool pre = true; for (unsigned i : fixed) for (unsigned j : fixed) if (i < j) { const RD &a = in[i], &b = in[j]; if (min(a.x1, b.x1) > max(a.x0, b.x0) && min(a.y1, b.y1) > max(a.y0, b.y0)) pre = false; }
+            if (!pre) continue;
+            for (int third = 0; third < 2; third++) {
+                ctx.count("transitions"); ctx.count("evaluations");
+                Rectangles rs; for (auto &r : in) rs.push_back(new Rectangle(r.x0, r.x1, r.y0, r.y1));
+                Rectangle::setXBorder(0); Rectangle::setYBorder(0);
+                vector<double> w0, h0; for (auto r : rs) { w0.push_back(r->width()); h0.push_back(r->height()); }
+                string desc = base + mcx::fmt(" fixedmask=%u thirdPass=%d", fm, third); bool threw = false; string what;
+                try { removeoverlaps(rs, fixed, third); } catch (CriticalFailure &f) { threw = true; what = f.what(); ctx.library_abort(f.what(), desc); } catch (...) { threw = true; what = "exception"; }
+                if (threw) ctx.count("threw");
+                if (Rectangle::xBorder != 0 || Rectangle::yBorder != 0) ctx.violation("border_not_restored", {threw ? "after_throw" : "normal_return", "thin"}, desc, mcx::fmt("xBorder=%g yBorder=%g %s", Rectangle::xBorder, Rectangle::yBorder, what.substr(0, 200).c_str()));
+                Rectangle::setXBorder(0); Rectangle::setYBorder(0);
+                bool ov = false; for (int i = 0; i < n && !ov; i++) for (int j = i + 1; j < n; j++) {
+                    double ox = min(rs[i]->getMaxX(), rs[j]->getMaxX()) - max(rs[i]->getMinX(), rs[j]->getMinX()), oy = min(rs[i]->getMaxY(), rs[j]->getMaxY()) - max(rs[i]->getMinY(), rs[j]->getMinY());
+                    if (ox > 1e-6 && oy > 1e-6) ov = true; }
+                string out; for (auto r : rs) out += mcx::fmt(" [%g,%g]x[%g,%g]", r->getMinX(), r->getMaxX(), r->getMinY(), r->getMaxY());
+                if (ov) ctx.violation("overlap_remains", {"thin"}, desc, out);
+                for (int i = 0; i < n; i++) if (fabs(rs[i]->width() - w0[i]) > 1e-9 || fabs(rs[i]->height() - h0[i]) > 1e-9) { ctx.violation("size_changed", {"thin"}, desc, out); break; }
+                for (auto r : rs) if (!(r->getMinX() == r->getMinX()) || std::isinf(r->getMinX()) || !(r->getMinY() == r->getMinY())) { ctx.violation("nonfinite", {"thin"}, desc, out); break; }
+                for (auto r : rs) delete r;
+            }
+        }
+        ctx.done_case();
+    } while (mcx::multiset_next(idx, alpha.size()) && !ctx.stopped());
+}
 int main(int argc, char **argv) {
     ctx.init(argc, argv);
     run(1, 3); run(2, 3); run(3, 2); run(3, 3); run(4, 2); run(5, 2);
-    if (ctx.thorough()) { run(2, 4); run(3, 4); run(4, 3); run(6, 2); }
+    run_thin(1, 2); run_thin(2, 2); run_thin(3, 2);
+    if (ctx.thorough()) { run_thin(2, 3); run_thin(4, 1); run(2, 4); run(3, 4); run(4, 3); run(6, 2); }
     return ctx.finish();
 }
